@@ -274,6 +274,19 @@ func (p *Program) funcSpec(fn *ssa.Function) *FuncSpec {
 	return found
 }
 
+// fieldFuncSpec: contract of a function-typed field, written `iface T.field` in T's package.
+func (p *Program) fieldFuncSpec(n *types.Named, field string) *FuncSpec {
+	if n.Obj().Pkg() == nil {
+		return nil
+	}
+	for _, s := range p.funcs {
+		if s.IsIface && s.Name == n.Obj().Name()+"."+field && s.Pkg == n.Obj().Pkg().Path() {
+			return s
+		}
+	}
+	return nil
+}
+
 func (p *Program) ifaceSpec(recv types.Type, m *types.Func) *FuncSpec {
 	try := func(n *types.Named) *FuncSpec {
 		if n.Obj().Pkg() == nil {
@@ -440,8 +453,12 @@ func (p *Program) typeCtxFor(spec *FuncSpec, fn *ssa.Function) *typeCtx {
 			tc.tlist = f.TypeArgs()
 		}
 	}
-	if tc.pkg == nil && spec != nil && spec.Pkg != "" {
-		tc.pkg = p.typesPkg(spec.Pkg)
+	if spec != nil && spec.Pkg != "" && (tc.pkg == nil || (fn != nil && fnPkgPath(fn) != spec.Pkg)) {
+		// a contract written in one package for a function of another (a trusted contract for a library
+		// function, phrased over the package's own types): names resolve where the contract was written
+		if sp := p.typesPkg(spec.Pkg); sp != nil {
+			tc.pkg = sp
+		}
 	}
 	return tc
 }
